@@ -44,8 +44,8 @@ Definition detect_full_checkpoint (w : list N) (hs1 hs2 ls1 ls2 : N) : option bo
 (** [wal = None]: the -wal file does not exist.  [fdig]: digest of the page data
     of the frame at offset (last end - frame size), supplied by the observer
     ([None] when that frame cannot be read completely). *)
-Definition verify (ps : N) (pos : N) (last : l0hdr) (syncedToWALEnd : bool)
-           (wal : option (list N)) (fdig : option N) : vres :=
+Definition verify_gen (fresh_rule : bool) (ps : N) (pos : N) (last : l0hdr) (syncedToWALEnd : bool)
+           (lastOff : N) (wal : option (list N)) (fdig : option N) : vres :=
   let fsz := ps + WALFrameHeaderSize in
   if N.eqb pos 0 then VOk (mkInfo WALHeaderSize 0 0 0 true false) else
   let off := l_off last + l_size last in
@@ -77,6 +77,9 @@ Definition verify (ps : N) (pos : N) (last : l0hdr) (syncedToWALEnd : bool)
           if negb (last_page_match last (be32 w i) (be32 w (i + 8)) (be32 w (i + 12)) fd)
           then VOk base
           else if negb saltMatch then
+            (* nothing synced since this object was opened (lastSyncedWALOffset = 0): the WAL was
+               restarted while the read lock was not held - only a snapshot is safe *)
+            if fresh_rule && N.eqb lastOff 0 then VOk (mkInfo WALHeaderSize hs1 hs2 (l_commit last) true false) else
             match detect_full_checkpoint w hs1 hs2 (l_s1 last) (l_s2 last) with
             | None => VErr
             | Some true => VOk (mkInfo WALHeaderSize hs1 hs2 (l_commit last) true false)
@@ -85,3 +88,9 @@ Definition verify (ps : N) (pos : N) (last : l0hdr) (syncedToWALEnd : bool)
           else VOk incr
       end
   end.
+
+(** [lastOff] = syncState.lastSyncedWALOffset (0 until the first sync of an open
+    session has copied something).  [verify] is the function of the current code;
+    [verify_gen false] is the decision before the repair of F2 (the fresh-session rule
+    did not exist), kept for the witness of the repaired defect. *)
+Definition verify := verify_gen true.
